@@ -272,7 +272,9 @@ def parser_tables(req):
         prods.append({"number": p.number, "name": p.name, "rhs": list(p.prod), "prec": list(p.prec), "names": list(p.namemap.keys()),
                       "func": getattr(f, "__qualname__", None), "lineno": f.__code__.co_firstlineno if f is not None else None})
     lr = P._lrtable
-    return {"productions": prods, "precedence": {k: list(v) for k, v in g.Precedence.items()}, "start": g.Start,
+    lr_tables = {"action": {str(k): dict(v) for k, v in lr.lr_action.items()}, "goto": {str(k): dict(v) for k, v in lr.lr_goto.items()},
+                 "defaulted": {str(k): v for k, v in lr.defaulted_states.items()}}
+    return {"lr": lr_tables, "productions": prods, "precedence": {k: list(v) for k, v in g.Precedence.items()}, "start": g.Start,
             "sr_conflicts": [list(map(str, c)) for c in lr.sr_conflicts], "rr_conflicts": [list(map(str, c)) for c in lr.rr_conflicts],
             "tokens": sorted(P.tokens), "terminals": sorted(t for t in g.Terminals if t not in ("error",)),
             "error_is_sly_default": P.error is Parser.error, "error_owner": P.error.__qualname__,
